@@ -152,6 +152,7 @@ func (k *checker) meshRules() {
 	c.R.Floor("SHAPE-2", 7)
 	c.R.Floor("CONC-2", 6)
 	c.R.Floor("CONC-3", 6)
+	c.R.Floor("CONC-7", 6)
 	c.R.Floor("SEQ-1", 16)
 
 	// controls
